@@ -171,7 +171,7 @@ FOURTH_PASS = {
  "C13": " Fourth pass: every exit of the SQLite commit/rollback closures re-enables foreign keys; every identity decision over foreign-key violations uses all fields.",
  "C14": " Fourth pass: the deferred restore is called on every path of its closure; the MySQL/PostgreSQL Snapshot accepts a database only on paths that counted its schemas/tables.",
  "C15": " Fourth pass: no case-sensitive comparison under a case-insensitive guard on the same string; mysql.FormatType prints the time precision only under a non-zero guard; a value-carrying attribute is written with its value (mysql.checkSpec: known finding D39).",
- "C16": " Fourth pass: plan options received are forwarded to PlanChanges.",
+ "C16": " Fourth pass: plan options received are forwarded to PlanChanges; PostgreSQL type statements name the type through the qualifier-aware helpers, the text after TYPE comes from the qualifier-aware formatter, and the schema prefix is not conditional on the object having a schema (found D40-D42).",
  "C17": " Fourth pass: scratch planner states inherit PlanOptions; a branch guarded by a comparison with a planner-state field writes that same field.",
  "C18": " Fourth pass: every executed statement gets its Change; no strings.Trim* cutset with letters or digits.",
  "C19": " Fourth pass: the indexes of an excluded column are found through the table's index parts; (*Diff).Extend returns the value that received the inherited SkipChanges; the selector pattern accepts the separator the selector list is split on.",
